@@ -12,7 +12,7 @@ import hashlib
 import json
 import os
 import re
-from checklib import sh, parse_kv_line, REPO
+from checklib import sh, parse_kv_line, match_fp, REPO
 
 
 def gate_variant():
@@ -24,6 +24,49 @@ def gate_variant():
         return 0
     m = re.search(r"static Subtree ts_parser__reuse_node\(.*?\n}\n", src, re.S)
     return 1 if m and "ts_subtree_depends_on_column(result)" in m.group(0) else 0
+
+
+def has_empty_range(spec):
+    f = spec.split(" ")
+    if len(f) != 5:
+        return False
+    rs = [f[3]] + [st.split(",")[3] for st in f[4].split("|") if st.count(",") == 3]
+    for r in rs:
+        if r == "-":
+            continue
+        for ab in r.split(";"):
+            a, b = ab.split(":")
+            if a == b:
+                return True
+    return False
+
+
+def splits_character(spec):
+    """Does some included-range boundary of the history fall INSIDE a UTF-8 multi-byte sequence
+    of the text it is applied to?"""
+    f = spec.split(" ")
+    if len(f) != 5:
+        return False
+    text = b"" if f[2] == "-" else bytes.fromhex(f[2])
+
+    def bad(text, r):
+        if r == "-":
+            return False
+        for ab in r.split(";"):
+            for x in ab.split(":"):
+                x = int(x)
+                if 0 < x < len(text) and (text[x] & 0xC0) == 0x80:
+                    return True
+        return False
+    if bad(text, f[3]):
+        return True
+    for st in f[4].split("|"):
+        if st.count(",") != 3:
+            continue
+        text = apply_edit(text, st)
+        if bad(text, st.split(",")[3]):
+            return True
+    return False
 
 
 def run_pipeline(ctx, explorer, cunit, driver, args, tag):
@@ -176,7 +219,7 @@ def run(ctx):
     evals = 0
     distinct = set()
     samples = []
-    tot = {k: 0 for k in ("gate", "match", "undet", "refusals", "reused_inner", "reused_leaf", "reused_bytes", "lexed", "nodes", "clean")}
+    tot = {k: 0 for k in ("gate", "match", "undet", "bd", "index_skipped", "refusals", "reused_inner", "reused_leaf", "reused_bytes", "lexed", "nodes", "clean")}
     by_lang = {}
     kinds = {"chunked": 0, "ranges": 0, "exhaustive_single_char": 0, "multi_step": 0}
     corr_bad = judge_bad = 0
@@ -208,18 +251,25 @@ def run(ctx):
             judge_bad += 1
             clause = kv["judge"][:60]
             payload = {"case": cid, "spec": spec, "result": kv}
-            if kv["judge"].startswith("FAIL") and spec and shrunk < 3 and not ctx.replay:
+            fp = {"lang": lang, "clause": clause,
+                  # diagnosis used by known_findings/C01.json: the runtime computed included-range differences between the
+                  # two parses and a column-dependent node of the old tree met the reuse gate …
+                  "ranges_changed": int(kv.get("rangediffs", "0") or 0) > 0,
+                  "column_dependent_candidate": kv.get("coldep") == "1",
+                  # … or some included range of the history so far is EMPTY (a == b)
+                  "empty_included_range": has_empty_range(spec),
+                  # … or some included-range boundary splits a multi-byte character
+                  "range_splits_character": splits_character(spec),
+                  # … or a range difference starts at/after the end of the OLD tree's last included range
+                  "diff_beyond_old_end": kv.get("diff_beyond_old_end") == "1"}
+            is_known = any(k.get("status") == "known" and match_fp(k.get("match", {}), fp) for k in ctx.known)
+            if kv["judge"].startswith("FAIL") and spec and shrunk < 3 and not ctx.replay and not is_known:
                 shrunk += 1
                 small, trials = shrink(ctx, tools, spec)
                 payload["original_spec"] = spec
                 payload["spec"] = small
                 payload["shrink_trials"] = trials
-            ctx.violation("judge", "incremental parse differs from from-scratch parse: " + kv["judge"], payload,
-                          fingerprint={"lang": lang, "clause": clause,
-                                       # diagnosis used by known_findings/C01.json: the included ranges changed between the
-                                       # two parses and a column-dependent node of the old tree met the reuse gate
-                                       "ranges_changed": int(kv.get("rangediffs", "0") or 0) > 0,
-                                       "column_dependent_candidate": kv.get("coldep") == "1"})
+            ctx.violation("judge", "incremental parse differs from from-scratch parse: " + kv["judge"], payload, fingerprint=fp)
         if kv.get("corr", "ok") != "ok":
             corr_bad += 1
             ctx.violation("corr", "reuse gate model and the real parser's log disagree: " + kv["corr"],
@@ -242,6 +292,8 @@ def run(ctx):
                 "(1,2,3,5,7 bytes); all zoo languages. non-trivial := the re-parse reused >=1 inner node and lexed >=1 token; distinct by hash of the spec",
         "samples": samples, "totals": tot, "by_language": by_lang, "history_kinds": kinds,
         "correspondence": {"compared": tot["gate"], "equal": tot["match"], "undetermined_state_after_breakdown": tot["undet"],
+                           "breakdown_lookahead_decisions_compared": tot["bd"],
+                           "explained_only_by_difference_index_skipping": tot["index_skipped"],
                            "cases": evals, "cases_equal": evals - corr_bad,
                            "what": "gate events of the real parser's log vs reuseGate on the dumped old tree and dumped tables"},
         "judge": {"evaluated": evals, "passed": evals - judge_bad, "error_free_scratch_trees": tot["clean"]},
